@@ -1,5 +1,620 @@
+// C07 mode: recorded operation traces of the real font installers (operation tables, and strace on the
+// production table) are replayed over the power-loss model
+//   K  by the extracted Coq checks (check_trace / durable_after) and
+//   O  by an independent Go implementation that enumerates every crash point and every admissible loss.
 package main
 
-import "verif/vh"
+import (
+	"bufio"
+	"encoding/binary"
+	"fmt"
+	"os"
+	"os/exec"
+	"path/filepath"
+	"regexp"
+	"strings"
 
-func runC07(r *vh.Run) {}
+	"github.com/pdfcpu/pdfcpu/pkg/font"
+	"verif/vh"
+)
+
+// ---------- model paths ----------
+
+type mpath struct {
+	dir  string // hex components joined by '.'
+	name string // "" for a directory
+}
+
+func (p mpath) String() string {
+	if p.name == "" {
+		return "D:" + p.dir
+	}
+	return "F:" + p.dir + ":" + p.name
+}
+
+type mev struct {
+	op   string
+	p, q mpath
+	res  string
+	data []byte
+}
+
+func (e mev) String() string {
+	return fmt.Sprintf("%s,%s,%s,%s,%x", e.op, e.p, e.q, e.res, e.data)
+}
+
+func (r *rec) mdir(p string) string {
+	rel, err := filepath.Rel(r.base, p)
+	if err != nil || strings.HasPrefix(rel, "..") {
+		return "ffff"
+	}
+	parts := strings.Split(rel, string(filepath.Separator))
+	cur := r.base
+	out := make([]string, len(parts))
+	for i, c := range parts {
+		cur = filepath.Join(cur, c)
+		if k, ok := r.tdirs[cur]; ok {
+			out[i] = fmt.Sprintf("%x", 0x100+k)
+		} else {
+			out[i] = c
+		}
+	}
+	return strings.Join(out, ".")
+}
+
+func (r *rec) mfile(p string) mpath {
+	d := r.mdir(filepath.Dir(p))
+	if k, ok := r.tfiles[p]; ok {
+		return mpath{d, fmt.Sprintf("%x", 0x100+k)}
+	}
+	return mpath{d, stripName(filepath.Base(p))}
+}
+
+func (r *rec) mtrace() []mev {
+	var out []mev
+	for _, e := range r.evs {
+		m := mev{op: e.Op, res: e.Res, data: e.Data}
+		switch e.Op {
+		case "mkdirtemp":
+			m.q = mpath{r.mdir(e.Q), ""}
+			m.p = m.q
+			if e.Res == "ok" {
+				m.p = mpath{r.mdir(e.P), ""}
+			}
+		case "createtemp":
+			m.q = mpath{r.mdir(e.Q), ""}
+			m.p = m.q
+			if e.Res == "ok" {
+				m.p = r.mfile(e.P)
+				m.q = m.p
+			}
+		case "syncdir", "removeall":
+			m.p = mpath{r.mdir(e.P), ""}
+			m.q = m.p
+		case "rename":
+			m.p, m.q = r.mfile(e.P), r.mfile(e.Q)
+		default:
+			m.p = r.mfile(e.P)
+			m.q = m.p
+		}
+		out = append(out, m)
+	}
+	return out
+}
+
+func traceWire(tr []mev) string {
+	s := make([]string, len(tr))
+	for i, e := range tr {
+		s[i] = e.String()
+	}
+	return strings.Join(s, ";")
+}
+
+// ---------- independent power-loss simulation ----------
+
+type dinode struct {
+	vol []byte
+	dur int
+}
+type deop struct {
+	link bool
+	name string
+	ino  int
+}
+type ddir struct {
+	dur  map[string]int
+	pend []deop
+}
+type dsim struct {
+	inos map[int]*dinode
+	dirs map[string]*ddir
+	next int
+}
+
+func newSim(init map[string]map[string][]byte) *dsim {
+	s := &dsim{inos: map[int]*dinode{}, dirs: map[string]*ddir{}, next: 1}
+	for d, fs := range init {
+		dd := &ddir{dur: map[string]int{}}
+		s.dirs[d] = dd
+		for n, b := range fs {
+			s.inos[s.next] = &dinode{vol: append([]byte(nil), b...), dur: len(b)}
+			dd.dur[n] = s.next
+			s.next++
+		}
+	}
+	return s
+}
+
+func applyOps(base map[string]int, ops []deop) map[string]int {
+	m := map[string]int{}
+	for k, v := range base {
+		m[k] = v
+	}
+	for _, o := range ops {
+		if o.link {
+			m[o.name] = o.ino
+		} else {
+			delete(m, o.name)
+		}
+	}
+	return m
+}
+
+func (s *dsim) resolve(p mpath) (int, bool) {
+	dd := s.dirs[p.dir]
+	if dd == nil {
+		return 0, false
+	}
+	i, ok := applyOps(dd.dur, dd.pend)[p.name]
+	return i, ok
+}
+
+func underDir(d, x string) bool { return x == d || strings.HasPrefix(x, d+".") }
+
+func (s *dsim) step(e mev) {
+	ok := e.res == "ok"
+	switch e.op {
+	case "mkdirtemp":
+		if ok {
+			s.dirs[e.p.dir] = &ddir{dur: map[string]int{}}
+		}
+	case "createtemp":
+		if ok {
+			if dd := s.dirs[e.p.dir]; dd != nil {
+				s.inos[s.next] = &dinode{}
+				dd.pend = append(dd.pend, deop{true, e.p.name, s.next})
+				s.next++
+			}
+		}
+	case "encode":
+		if i, found := s.resolve(e.p); found {
+			s.inos[i].vol = append(s.inos[i].vol, e.data...)
+		}
+	case "sync":
+		if i, found := s.resolve(e.p); found && ok {
+			s.inos[i].dur = len(s.inos[i].vol)
+		}
+	case "rename":
+		if !ok {
+			return
+		}
+		i, found := s.resolve(e.p)
+		if !found {
+			return
+		}
+		if d2 := s.dirs[e.q.dir]; d2 != nil {
+			d2.pend = append(d2.pend, deop{true, e.q.name, i})
+		}
+		if d1 := s.dirs[e.p.dir]; d1 != nil {
+			d1.pend = append(d1.pend, deop{false, e.p.name, 0})
+		}
+	case "remove":
+		if dd := s.dirs[e.p.dir]; dd != nil && ok {
+			dd.pend = append(dd.pend, deop{false, e.p.name, 0})
+		}
+	case "removeall":
+		if ok {
+			for d := range s.dirs {
+				if underDir(e.p.dir, d) {
+					delete(s.dirs, d)
+				}
+			}
+		}
+	case "syncdir":
+		if dd := s.dirs[e.p.dir]; dd != nil && ok {
+			dd.dur = applyOps(dd.dur, dd.pend)
+			dd.pend = nil
+		}
+	}
+}
+
+func isFontName(n string) bool {
+	var v int
+	fmt.Sscanf(n, "%x", &v)
+	return v <= 0xff
+}
+
+// crashOK enumerates every admissible power loss of the font directory F in the current state.
+func (s *dsim) crashOK(F string, old, new map[string][]byte) (bool, string) {
+	dd := s.dirs[F]
+	if dd == nil {
+		return true, ""
+	}
+	for k := 0; k <= len(dd.pend); k++ {
+		ents := applyOps(dd.dur, dd.pend[:k])
+		for n, i := range ents {
+			if !isFontName(n) {
+				continue
+			}
+			ino := s.inos[i]
+			for j := ino.dur; j <= len(ino.vol); j++ {
+				b := string(ino.vol[:j])
+				o, hasO := old[n]
+				nw, hasN := new[n]
+				if !(hasO && b == string(o)) && !(hasN && b == string(nw)) {
+					return false, fmt.Sprintf("name %s after %d pending entry operations holds %d of %d bytes", n, k, j, len(ino.vol))
+				}
+			}
+		}
+	}
+	return true, ""
+}
+
+func (s *dsim) durable(F, n string, data []byte) bool {
+	dd := s.dirs[F]
+	if dd == nil {
+		return false
+	}
+	for k := 0; k <= len(dd.pend); k++ {
+		i, ok := applyOps(dd.dur, dd.pend[:k])[n]
+		if !ok {
+			return false
+		}
+		ino := s.inos[i]
+		for j := ino.dur; j <= len(ino.vol); j++ {
+			if string(ino.vol[:j]) != string(data) {
+				return false
+			}
+		}
+		if ino.dur > len(ino.vol) {
+			return false
+		}
+	}
+	return true
+}
+
+func wireListing(init map[string]map[string][]byte) string {
+	var ds []string
+	for d, fs := range init {
+		var l []string
+		for n, b := range fs {
+			l = append(l, fmt.Sprintf("%s:%x", n, b))
+		}
+		ds = append(ds, d+"="+strings.Join(l, ","))
+	}
+	return strings.Join(ds, ";")
+}
+func wireReps(m map[string][]byte) string {
+	var l []string
+	for n, b := range m {
+		l = append(l, fmt.Sprintf("%s:%x", n, b))
+	}
+	return strings.Join(l, ",")
+}
+
+// judge replays one recorded trace: K against the extracted checks, O by enumeration.
+func judge(r *vh.Run, fam string, input map[string]any, tr []mev, init map[string]map[string][]byte,
+	old, new map[string][]byte, success bool, installed []string) {
+	sim := newSim(init)
+	good := true
+	if ok, why := sim.crashOK("1", old, new); !ok {
+		panic("harness: initial state violates the trichotomy: " + why)
+	}
+	for c, e := range tr {
+		sim.step(e)
+		if ok, why := sim.crashOK("1", old, new); !ok && good {
+			good = false
+			input["crash_point"] = c + 1
+			input["family"] = fam
+			r.OracleFail("c07:"+fam+":powerloss-exposes-incomplete-font", input, fmt.Sprintf("after event %d (%s): %s", c+1, e, why))
+		}
+	}
+	if good {
+		r.OracleOK()
+	}
+	res := "ok"
+	if !good {
+		res = "bad"
+	}
+	r.Case("chk", []string{"1", "ff", wireReps(old), wireReps(new), wireListing(init), traceWire(tr)}, res)
+	if success {
+		for _, n := range installed {
+			d := sim.durable("1", n, new[n])
+			if !d {
+				input["family"] = fam
+				r.OracleFail("c07:"+fam+":not-durable-after-success", input, "installation returned success but a power loss can lose or truncate font "+n)
+			} else {
+				r.OracleOK()
+			}
+			r.Case("dur", []string{"1", wireListing(init), traceWire(tr), n, fmt.Sprintf("%x", new[n])}, vh.Bool(d))
+		}
+	}
+}
+
+func runC07(r *vh.Run) {
+	// A. single font written straight into the font directory (font.InstallTrueTypeFont / InstallFontFromBytes path)
+	for _, pre := range []bool{false, true} {
+		for _, trunc := range []int{0, 1} {
+			pre, trunc := pre, trunc
+			sweep(r.Thorough(), func(f1, f2 int) int {
+				base := newBase()
+				F := filepath.Join(base, "1")
+				init := map[string]map[string][]byte{"1": {"3f": {0xee}}}
+				old := map[string][]byte{"3f": {0xee}}
+				wfile(filepath.Join(F, nm(0x3f)+".gob"), []byte{0xee}, 0o644)
+				if pre {
+					wfile(filepath.Join(F, nm(0x10)+".gob"), oldTok(0x10), 0o644)
+					init["1"]["10"] = oldTok(0x10)
+					old["10"] = oldTok(0x10)
+				}
+				rc := newRec(base, f1, f2)
+				rc.trunc = trunc
+				rc.curData = newTok(0x10)
+				err := font.VerifWriteGob(filepath.Join(F, nm(0x10)+".gob"), proto.VerifRename(nm(0x10)), rc.gobOps())
+				judge(r, "writeGob", map[string]any{"pre": pre, "f1": f1, "f2": f2, "trunc": trunc}, rc.mtrace(), init, old,
+					map[string][]byte{"10": newTok(0x10)}, err == nil, []string{"10"})
+				r.Count("class:gob")
+				return rc.cnt
+			})
+		}
+	}
+	// B. collections: staging by writeGob, then commitCollectionFonts
+	shapes := [][]memberSpec{
+		{{0x10, true}},
+		{{0x10, true}, {0x11, true}},
+		{{0x10, true}, {0, false}},
+		{{0x10, true}, {0x11, true}, {0x12, true}},
+	}
+	if r.Thorough() {
+		shapes = append(shapes, []memberSpec{{0x10, true}, {0x11, true}, {0x12, true}, {0x13, true}}, []memberSpec{{0x10, true}, {0x10, true}})
+	}
+	hdr := make([]byte, 28)
+	copy(hdr, "ttcf")
+	binary.BigEndian.PutUint32(hdr[4:], 0x00010000)
+	binary.BigEndian.PutUint32(hdr[8:], 1)
+	binary.BigEndian.PutUint32(hdr[12:], 16)
+	for si, shape := range shapes {
+		for _, mask := range []int{0, 1, 7} {
+			shape, mask := shape, mask
+			sweep(r.Thorough() && len(shape) <= 2, func(f1, f2 int) int {
+				base := newBase()
+				F := filepath.Join(base, "1")
+				src := filepath.Join(base, "src.ttc")
+				wfile(src, hdr, 0o644)
+				init := map[string]map[string][]byte{"1": {"3f": {0xee}}}
+				old := map[string][]byte{"3f": {0xee}}
+				new := map[string][]byte{}
+				wfile(filepath.Join(F, nm(0x3f)+".gob"), []byte{0xee}, 0o644)
+				var installed []string
+				for i, m := range shape {
+					if !m.valid {
+						continue
+					}
+					n := fmt.Sprintf("%x", m.p)
+					if _, dup := new[n]; dup {
+						continue
+					}
+					new[n] = newTok(m.p)
+					installed = append(installed, n)
+					if mask>>i&1 == 1 {
+						wfile(filepath.Join(F, nm(m.p)+".gob"), oldTok(m.p), 0o644)
+						init["1"][n] = oldTok(m.p)
+						old[n] = oldTok(m.p)
+					}
+				}
+				rc := newRec(base, f1, f2)
+				ops := rc.collOps()
+				ops.StageMembers = func(_ *os.File, stagingDir, _ string, _ int64, _ uint32, _ int64) ([]font.InstallResult, error) {
+					var res []font.InstallResult
+					done := map[int]bool{}
+					for i, m := range shape {
+						if !m.valid {
+							return nil, fmt.Errorf("member %d: parse tables: invalid", i+1)
+						}
+						if done[m.p] {
+							return nil, fmt.Errorf("member %d: %w", i+1, font.ErrDuplicatePostScriptName)
+						}
+						done[m.p] = true
+						rc.curData = newTok(m.p)
+						if err := font.VerifWriteGob(filepath.Join(stagingDir, nm(m.p)+".gob"), proto.VerifRename(nm(m.p)), rc.gobOps()); err != nil {
+							return nil, err
+						}
+						res = append(res, font.InstallResult{PostScriptName: nm(m.p), Member: i + 1})
+					}
+					return res, nil
+				}
+				_, err := font.VerifInstallCollection(F, src, ops)
+				judge(r, "collection", map[string]any{"shape": si, "preexisting_mask": mask, "f1": f1, "f2": f2}, rc.mtrace(), init, old, new, err == nil, installed)
+				r.Count(fmt.Sprintf("class:collection-shape%d", si))
+				return rc.cnt
+			})
+		}
+	}
+	// C. commitCollectionFonts on an already flushed staging directory
+	for n := 1; n <= r.Pick(2, 3); n++ {
+		for mask := 0; mask < 1<<n; mask++ {
+			n, mask := n, mask
+			sweep(false, func(f1, f2 int) int {
+				base := newBase()
+				F := filepath.Join(base, "1")
+				S := filepath.Join(F, "2")
+				must(os.Mkdir(S, 0o755))
+				init := map[string]map[string][]byte{"1": {}, "1.2": {}}
+				old := map[string][]byte{}
+				new := map[string][]byte{}
+				var results []font.InstallResult
+				var installed []string
+				for i := 0; i < n; i++ {
+					p := 0x10 + i
+					nn := fmt.Sprintf("%x", p)
+					wfile(filepath.Join(S, nm(p)+".gob"), newTok(p), 0o644)
+					init["1.2"][nn] = newTok(p)
+					new[nn] = newTok(p)
+					installed = append(installed, nn)
+					if mask>>i&1 == 1 {
+						wfile(filepath.Join(F, nm(p)+".gob"), oldTok(p), 0o644)
+						init["1"][nn] = oldTok(p)
+						old[nn] = oldTok(p)
+					}
+					results = append(results, font.InstallResult{PostScriptName: nm(p)})
+				}
+				rc := newRec(base, f1, f2)
+				err := font.VerifCommitCollectionFonts(F, S, results, rc.collOps())
+				judge(r, "commit", map[string]any{"n": n, "preexisting_mask": mask, "f1": f1, "f2": f2}, rc.mtrace(), init, old, new, err == nil, installed)
+				r.Count("class:commit")
+				return rc.cnt
+			})
+		}
+	}
+	straceRun(r)
+}
+
+// ---------- strace on the production operation table ----------
+
+func straceChild(fontDir, fontFile string) {
+	if _, err := font.InstallTrueTypeFontResult(fontDir, fontFile); err != nil {
+		fmt.Fprintln(os.Stderr, err)
+		os.Exit(3)
+	}
+}
+
+var (
+	reOpen   = regexp.MustCompile(`openat\(AT_FDCWD[^,]*, "([^"]+)", ([A-Z_|]+)`)
+	reFd     = regexp.MustCompile(`^(write|fsync|fdatasync|fchmod|close)\(\d+<([^>]+)>`)
+	reRename = regexp.MustCompile(`renameat2?\(AT_FDCWD[^,]*, "([^"]+)", AT_FDCWD[^,]*, "([^"]+)"`)
+	reUnlink = regexp.MustCompile(`unlinkat\(AT_FDCWD[^,]*, "([^"]+)"`)
+)
+
+func straceRun(r *vh.Run) {
+	if _, err := exec.LookPath("strace"); err != nil {
+		r.Count("strace:unavailable")
+		return
+	}
+	self, err := os.Executable()
+	if err != nil {
+		r.Count("strace:unavailable")
+		return
+	}
+	for _, pre := range []bool{false, true} {
+		base := newBase()
+		F := filepath.Join(base, "1")
+		in := filepath.Join(base, "in.ttf")
+		wfile(in, patchedRoboto(fontName(0x10)), 0o644)
+		init := map[string]map[string][]byte{"1": {}}
+		old := map[string][]byte{}
+		if pre {
+			wfile(filepath.Join(F, fontName(0x10)+".gob"), oldTok(0x10), 0o644)
+			init["1"]["10"] = oldTok(0x10)
+			old["10"] = oldTok(0x10)
+		}
+		logf := filepath.Join(base, "strace.log")
+		cmd := exec.Command("strace", "-f", "-y", "-qq", "-s", "0", "-e", "signal=none",
+			"-e", "trace=openat,write,fsync,fdatasync,fchmod,close,renameat,renameat2,unlinkat", "-o", logf,
+			self, "--strace-child", F, in)
+		if out, err := cmd.CombinedOutput(); err != nil {
+			r.Count("strace:failed")
+			r.Sample(map[string]any{"strace_error": err.Error(), "out": string(out)})
+			return
+		}
+		f, err := os.Open(logf)
+		must(err)
+		var tr []mev
+		tmpNames := map[string]string{}
+		wrote := map[string]bool{}
+		mp := func(p string) mpath {
+			if n, ok := tmpNames[p]; ok {
+				return mpath{"1", n}
+			}
+			return mpath{"1", stripName(filepath.Base(p))}
+		}
+		sc := bufio.NewScanner(f)
+		sc.Buffer(make([]byte, 1<<20), 1<<20)
+		for sc.Scan() {
+			line := sc.Text()
+			if i := strings.IndexByte(line, ' '); i > 0 { // drop the pid column
+				line = strings.TrimSpace(line[i:])
+			}
+			if !strings.Contains(line, F) {
+				continue
+			}
+			switch {
+			case strings.HasPrefix(line, "openat("):
+				m := reOpen.FindStringSubmatch(line)
+				if m == nil || filepath.Dir(m[1]) != F {
+					continue
+				}
+				if strings.Contains(m[2], "O_CREAT") && strings.Contains(m[2], "O_EXCL") {
+					tmpNames[m[1]] = fmt.Sprintf("%x", 0x100+len(tmpNames)+1)
+					p := mp(m[1])
+					tr = append(tr, mev{op: "createtemp", p: p, q: p, res: "ok"})
+				}
+			case strings.HasPrefix(line, "renameat"):
+				if m := reRename.FindStringSubmatch(line); m != nil {
+					tr = append(tr, mev{op: "rename", p: mp(m[1]), q: mp(m[2]), res: "ok"})
+				}
+			case strings.HasPrefix(line, "unlinkat("):
+				if m := reUnlink.FindStringSubmatch(line); m != nil {
+					p := mp(m[1])
+					tr = append(tr, mev{op: "remove", p: p, q: p, res: "ok"})
+				}
+			default:
+				m := reFd.FindStringSubmatch(line)
+				if m == nil {
+					continue
+				}
+				path := m[2]
+				if path == F {
+					if m[1] == "fsync" || m[1] == "fdatasync" {
+						d := mpath{"1", ""}
+						tr = append(tr, mev{op: "syncdir", p: d, q: d, res: "ok"})
+					}
+					continue
+				}
+				if filepath.Dir(path) != F {
+					continue
+				}
+				p := mp(path)
+				switch m[1] {
+				case "write":
+					e := mev{op: "encode", p: p, q: p, res: "ok"}
+					if !wrote[path] { // the whole representation is attributed to the first write
+						e.data = newTok(0x10)
+						wrote[path] = true
+					}
+					tr = append(tr, e)
+				case "fsync", "fdatasync":
+					tr = append(tr, mev{op: "sync", p: p, q: p, res: "ok"})
+				case "fchmod":
+					tr = append(tr, mev{op: "chmod", p: p, q: p, res: "ok"})
+				case "close":
+					tr = append(tr, mev{op: "close", p: p, q: p, res: "ok"})
+				}
+			}
+		}
+		f.Close()
+		if len(tr) < 4 {
+			r.Count("strace:empty-trace")
+			r.Sample(map[string]any{"strace_trace": traceWire(tr)})
+			continue
+		}
+		var kinds []string
+		for _, e := range tr {
+			if len(kinds) == 0 || kinds[len(kinds)-1] != e.op {
+				kinds = append(kinds, e.op)
+			}
+		}
+		r.Sample(map[string]any{"strace_syscall_order": strings.Join(kinds, " ")})
+		judge(r, "strace-InstallTrueTypeFont", map[string]any{"pre": pre}, tr, init, old, map[string][]byte{"10": newTok(0x10)}, true, []string{"10"})
+		r.Count("class:strace")
+	}
+}
